@@ -1,18 +1,364 @@
 (* Line-oriented driver around the extracted model.
-   stdin: one case per line "<op> <args...>"; stdout: one result line per case. *)
+   stdin: one case per line "<op> <args...>"; stdout: one result line per case.
+   The same protocol is implemented by harness/ (Go) on top of /repo. *)
 module ZZ = Z
 open Model
 
-let z_of_string s = ZZ.of_string s
-let zs = ZZ.to_string
+(* ---------- helpers ---------- *)
+let split_on c s = String.split_on_char c s
+let split_ws s = List.filter (fun x -> x <> "") (split_on ' ' s)
+let z_of_dec s = ZZ.of_string s
+let z_of_hex s = if s = "" || s = "-" then ZZ.zero else ZZ.of_string_base 16 s
+let zhex (x : ZZ.t) = ZZ.format "%x" x
+let zdec = ZZ.to_string
 
-let split_ws s = List.filter (fun x -> x <> "") (String.split_on_char ' ' s)
+let rec nat_of_int n = if n <= 0 then O else S (nat_of_int (n - 1))
+let int_of_nat n = let rec go acc = function O -> acc | S m -> go (acc + 1) m in go 0 n
+
+let bytes_of_hex s : ZZ.t list =
+  if s = "-" || s = "" then [] else begin
+    let n = String.length s / 2 in
+    List.init n (fun i -> ZZ.of_int (int_of_string ("0x" ^ String.sub s (2 * i) 2)))
+  end
+let hex_of_bytes (l : ZZ.t list) : string =
+  if l = [] then "-" else String.concat "" (List.map (fun b -> Printf.sprintf "%02x" (ZZ.to_int b)) l)
+
+let r_mod = ZZ.of_string "13108968793781547619861935127046491459309155893440570251786403306729687672801"
+let mkfr (x : ZZ.t) : fr = Model.fr0 x
+let mkfp (x : ZZ.t) : fp = Model.fp0 x
+let frhex (x : fr) = zhex x
+let fphex (x : fp) = zhex x
+
+(* point token "X.Y.Z" (hex) *)
+let point_of_tok s : element =
+  match split_on '.' s with
+  | [x; y; z] -> ((mkfp (z_of_hex x), mkfp (z_of_hex y)), mkfp (z_of_hex z))
+  | _ -> failwith ("bad point token " ^ s)
+let tok_of_point (((x, y), z) : element) = fphex x ^ "." ^ fphex y ^ "." ^ fphex z
+
+(* ---------- CRS (computed by the model, cached on disk per build) ---------- *)
+let crs : element list Lazy.t = lazy (
+  let path = try Sys.getenv "VERIF_CRS_CACHE" with Not_found -> "" in
+  let load () =
+    let ic = open_in path in
+    let rec go acc = match input_line ic with
+      | l -> go (point_of_tok (String.trim l) :: acc)
+      | exception End_of_file -> close_in ic; List.rev acc in
+    go [] in
+  if path <> "" && Sys.file_exists path then load ()
+  else begin
+    let pts = gen_points (nat_of_int 6000) (nat_of_int 256) ZZ.zero in
+    if path <> "" then begin
+      let tmp = path ^ "." ^ string_of_int (Unix.getpid ()) in
+      let oc = open_out tmp in
+      List.iter (fun p -> output_string oc (tok_of_point p ^ "\n")) pts;
+      close_out oc; Sys.rename tmp path
+    end;
+    pts
+  end)
+let cfg = lazy (c_config (Lazy.force crs))
+
+(* ---------- polynomial / vector specs (shared with the Go harness) ---------- *)
+let prng_k = ZZ.of_string "0x9e3779b97f4a7c15f39cc0605cedc835"
+let prng seed j =
+  let b = ZZ.add (ZZ.add seed (ZZ.of_int j)) ZZ.one in
+  ZZ.erem (ZZ.add (ZZ.mul (ZZ.mul (ZZ.mul b b) b) prng_k) (ZZ.of_int j)) r_mod
+
+let poly_of_spec (n : int) (s : string) : fr list =
+  match split_on ':' s with
+  | ["z"] -> List.init n (fun _ -> mkfr ZZ.zero)
+  | ["c"; v] -> let v = mkfr (z_of_hex v) in List.init n (fun _ -> v)
+  | ["u"; i; v] -> let i = int_of_string i and v = mkfr (z_of_hex v) in
+      List.init n (fun j -> if j = i then v else mkfr ZZ.zero)
+  | ["s"; kv] ->
+      let tbl = Hashtbl.create 8 in
+      List.iter (fun e -> match split_on '=' e with
+        | [i; v] -> Hashtbl.replace tbl (int_of_string i) (mkfr (z_of_hex v))
+        | _ -> failwith "bad sparse") (split_on ',' kv);
+      List.init n (fun j -> try Hashtbl.find tbl j with Not_found -> mkfr ZZ.zero)
+  | ["r"; seed] -> let seed = z_of_hex seed in List.init n (fun j -> mkfr (prng seed j))
+  | ["x"; vs] -> List.map (fun v -> mkfr (z_of_hex v)) (split_on ',' vs)
+  | _ -> failwith ("bad poly spec " ^ s)
+
+(* ---------- families ---------- *)
+
+(* transcript op tokens *)
+let top_of_tok s : top =
+  match split_on ':' s with
+  | ["D"; l] -> TDomainSep (bytes_of_hex l)
+  | ["M"; l; m] -> TMessage (bytes_of_hex m, bytes_of_hex l)
+  | ["S"; l; v] -> TScalar (z_of_hex v, bytes_of_hex l)
+  | ["P"; l; p] -> TPoint (bw_bytes (point_of_tok p), bytes_of_hex l)
+  | ["C"; l] -> TChallenge (bytes_of_hex l)
+  | _ -> failwith ("bad transcript op " ^ s)
+
+let dec_result (r : (element, dec_err) sum) =
+  match r with
+  | Inl p -> "OK " ^ hex_of_bytes (bw_bytes p) ^ " " ^ hex_of_bytes (bw_bytes_uncompressed p)
+  | Inr _ -> "ERR"
+
+(* group scripts *)
+let ints_of s = if s = "-" || s = "" then [] else List.map int_of_string (split_on ',' s)
+let frs_of s = if s = "-" || s = "" then [] else List.map (fun v -> mkfr (z_of_hex v)) (split_on ',' s)
+
+let run_gs (toks : string list) : string =
+  let regs : element array ref = ref [||] in
+  let push p = regs := Array.append !regs [| p |] in
+  let get i = !regs.(i) in
+  let obs = Buffer.create 256 in
+  let err k = Buffer.add_string obs (Printf.sprintf " !E%d" k) in
+  List.iteri (fun k tok ->
+    match split_on ':' tok with
+    | ["raw"; p] -> push (point_of_tok p)
+    | ["id"] -> push bw_identity
+    | ["gen"] -> push bw_generator
+    | ["crs"; i] -> push (List.nth (Lazy.force crs) (int_of_string i))
+    | [("add" | "addA" | "addB"); i; j] -> push (bw_add (get (int_of_string i)) (get (int_of_string j)))
+    | [("sub" | "subA" | "subB"); i; j] -> push (bw_sub (get (int_of_string i)) (get (int_of_string j)))
+    | [("dbl" | "dblA"); i] -> push (bw_double (get (int_of_string i)))
+    | [("neg" | "negA"); i] -> push (bw_neg (get (int_of_string i)))
+    | ["set"; i] -> push (get (int_of_string i))
+    | ["mix"; i; j] ->
+        let ((x, y), z) = get (int_of_string j) in
+        let zi = zq_inv Model.p_mod z in ignore zi;
+        let a = (zq_mul Model.p_mod x (zq_inv Model.p_mod z), zq_mul Model.p_mod y (zq_inv Model.p_mod z)) in
+        push (bw_add_mixed (get (int_of_string i)) a)
+    | [("smul" | "smulA"); i; s] -> push (bw_smul (mkfr (z_of_hex s)) (get (int_of_string i)))
+    | ["dec"; h] -> (match bw_set_bytes (bytes_of_hex h) false with
+                     | Inl p -> push p | Inr _ -> err k; push bw_identity)
+    | ["decu"; h] -> (match bw_set_bytes_uncompressed true (bytes_of_hex h) false with
+                      | Inl p -> push p | Inr _ -> err k; push bw_identity)
+    | ["dect"; h] -> (match bw_set_bytes_uncompressed true (bytes_of_hex h) true with
+                      | Inl p -> push p | Inr _ -> err k; push bw_identity)
+    | ["norm"; i] -> (match bw_normalize (get (int_of_string i)) with
+                      | Some p -> push p | None -> err k; push (get (int_of_string i)))
+    | ["bn"; is] ->
+        let is = ints_of is in
+        if List.exists (fun i -> let ((_, _), z) = get i in ZZ.equal z ZZ.zero) is then err k
+        else List.iter (fun i -> match bw_normalize (get i) with
+                                 | Some p -> !regs.(i) <- p | None -> ()) is
+    | [("msm" | "ms"); _; _; is; ss] | ["msx"; _; _; is; ss] ->
+        push (c_msm (List.map get (ints_of is)) (frs_of ss))
+    | ["msmp"; kv] ->
+        let n = 256 in
+        let v = poly_of_spec n ("s:" ^ kv) in
+        push (c_commit (Lazy.force crs) v)
+    | ["z1"; i] -> let ((_, _), z) = get (int_of_string i) in
+        Buffer.add_string obs (Printf.sprintf " z1[%s]=%b" i (ZZ.equal z ZZ.one))
+    | ["oc"; i] -> Buffer.add_string obs (Printf.sprintf " oc[%s]=%b" i (bw_is_on_curve (get (int_of_string i))))
+    | _ -> failwith ("bad gs op " ^ tok)) toks;
+  let rs = Array.to_list !regs in
+  let b = Buffer.create 1024 in
+  Buffer.add_string b "B";
+  List.iter (fun p -> Buffer.add_string b (" " ^ hex_of_bytes (bw_bytes p))) rs;
+  Buffer.add_string b " | EQ";
+  List.iter (fun p ->
+    Buffer.add_string b " ";
+    List.iter (fun q -> Buffer.add_string b (if bw_equal p q then "1" else "0")) rs) rs;
+  Buffer.add_string b " | MAP";
+  List.iter (fun p -> Buffer.add_string b (" " ^ frhex (bw_map_to_scalar p))) rs;
+  Buffer.add_string b " | BMAP";
+  List.iter (fun s -> Buffer.add_string b (" " ^ frhex s)) (bw_batch_map_to_scalar rs);
+  Buffer.add_string b " | EB";
+  List.iter (fun s -> Buffer.add_string b (" " ^ hex_of_bytes s)) (bw_elements_to_bytes rs);
+  Buffer.add_string b " | UB";
+  List.iter (fun s -> Buffer.add_string b (" " ^ hex_of_bytes s)) (bw_batch_to_bytes_uncompressed rs);
+  Buffer.add_string b " | UT";   (* uncompressed (trusted) round trip, re-encoded compressed *)
+  List.iter (fun p ->
+    match bw_set_bytes_uncompressed true (bw_bytes_uncompressed p) true with
+    | Inl q -> Buffer.add_string b (" " ^ hex_of_bytes (bw_bytes q) ^ (if bw_equal p q then "=" else "#"))
+    | Inr _ -> Buffer.add_string b " ERR") rs;
+  Buffer.add_string b " | DEC";  (* SetBytes(Bytes(p)) *)
+  List.iter (fun p ->
+    match bw_set_bytes (bw_bytes p) false with
+    | Inl q -> Buffer.add_string b (if bw_equal p q then " =" else " #")
+    | Inr _ -> Buffer.add_string b " ERR") rs;
+  Buffer.add_string b " | OBS";
+  Buffer.add_buffer b obs;
+  Buffer.contents b
+
+(* reader spec "plan=3,5;eofd=1;fail=100" *)
+let reader_of_spec spec data : reader =
+  let plan = ref [] and eofd = ref false and fail = ref None in
+  if spec <> "-" then
+    List.iter (fun kv -> match split_on '=' kv with
+      | ["plan"; v] -> plan := List.map (fun x -> ZZ.of_int x) (ints_of v)
+      | ["eofd"; v] -> eofd := (v = "1")
+      | ["fail"; v] -> fail := Some (ZZ.of_int (int_of_string v))
+      | _ -> failwith "bad reader spec") (split_on ';' spec);
+  { r_data = data; r_plan = !plan; r_eof_with_data = !eofd; r_fail_at = !fail; r_pos = ZZ.zero }
+
+let strict_probe = (try Sys.getenv "VERIF_MODEL_PROBE" with Not_found -> "strict") <> "lax"
+
+(* multiproof statements *)
+let parse_proof (h : string) : (fr, element) multiproof option =
+  (* 576 bytes; parsed with the model's own reader (plain) *)
+  match mp_read true (reader_of_spec "-" (bytes_of_hex h)) with
+  | Inl (d, ip) -> Some { mpIPA = { pL = ip.ibL; pR = ip.ibR; pA = ip.ibA }; mpD = d }
+  | Inr _ -> None
+
+let proof_bytes (p : (fr, element) multiproof) : string =
+  let chunks = mp_write_chunks p.mpD { ibL = p.mpIPA.pL; ibR = p.mpIPA.pR; ibA = p.mpIPA.pA } in
+  hex_of_bytes (List.concat chunks)
+let ipa_proof_bytes (p : (fr, element) ipa_proof) : string =
+  hex_of_bytes (List.concat (ipa_write_chunks { ibL = p.pL; ibR = p.pR; ibA = p.pA }))
+
+(* commitment representation modifier: n | s<hex l> | f | sf<hex l> *)
+let rerepr (m : string) (((x, y), z) : element) : element =
+  let pm = Model.p_mod in
+  let scale l ((x, y), z) = let l = mkfp (z_of_hex l) in
+    ((zq_mul pm x l, zq_mul pm y l), zq_mul pm z l) in
+  let flip ((x, y), z) = ((zq_neg pm x, zq_neg pm y), z) in
+  let norm p = match bw_normalize p with Some q -> q | None -> p in
+  let p = ((x, y), z) in
+  if m = "n" then norm p
+  else if m = "k" then p
+  else if m = "f" then flip (norm p)
+  else if String.length m > 2 && String.sub m 0 2 = "sf" then flip (scale (String.sub m 2 (String.length m - 2)) (norm p))
+  else if String.length m > 1 && m.[0] = 's' then scale (String.sub m 1 (String.length m - 1)) (norm p)
+  else if String.length m > 1 && m.[0] = 'p' then p   (* pointer sharing: no meaning in the functional model *)
+  else failwith ("bad repr " ^ m)
 
 let handle toks =
   match toks with
   | ["exec"; n; m] | ["execd"; n; m] | ["execs"; n; m] ->
-      let rs = execute_ranges (z_of_string n) (z_of_string m) in
-      "r" ^ String.concat "" (List.map (fun (s, e) -> " " ^ zs s ^ "-" ^ zs e) rs)
+      let rs = execute_ranges (z_of_dec n) (z_of_dec m) in
+      "r" ^ String.concat "" (List.map (fun (s, e) -> " " ^ zdec s ^ "-" ^ zdec e) rs)
+  | ["sha"; h] -> hex_of_bytes (sha256 (bytes_of_hex h))
+  | "tr" :: label :: ops ->
+      let cs = c_transcript_run (bytes_of_hex label) (List.map top_of_tok ops) in
+      let cs' = c_transcript_spec_run (bytes_of_hex label) (List.map top_of_tok ops) in
+      if cs <> cs' then "MODEL-INTERNAL transcript impl-level and spec-level differ"
+      else "c" ^ String.concat "" (List.map (fun c -> " " ^ frhex c) cs)
+  | ["frdec"; kind; h] ->
+      let b = bytes_of_hex h in
+      let show v buf v2 = v ^ " " ^ hex_of_bytes buf ^ " " ^ v2 in
+      (match kind with
+       | "be" -> let (v, b') = fr_set_bytes b in let (v2, _) = fr_set_bytes b' in show (frhex v) b' (frhex v2)
+       | "le" -> let (v, b') = fr_set_bytes_le b in let (v2, _) = fr_set_bytes_le b' in show (frhex v) b' (frhex v2)
+       | "lec" -> let (v, b') = fr_set_bytes_le_canonical b in let (v2, _) = fr_set_bytes_le_canonical b' in
+           let s = function Some x -> frhex x | None -> "ERR" in show (s v) b' (s v2)
+       | _ -> failwith "frdec kind")
+  | ["frenc"; v] -> let s = mkfr (z_of_hex v) in
+      hex_of_bytes (fr_bytes s) ^ " " ^ hex_of_bytes (fr_bytes_le s)
+  | ["fpencle"; v] -> hex_of_bytes (fp_bytes_le (mkfp (z_of_hex v)))
+  | ["dec"; kind; h] ->
+      let b = bytes_of_hex h in
+      (match kind with
+       | "c" | "r" -> dec_result (bw_set_bytes b false)
+       | "x" -> dec_result (bw_set_bytes b true)
+       | "u" -> dec_result (bw_set_bytes_uncompressed true b false)
+       | "t" -> dec_result (bw_set_bytes_uncompressed true b true)
+       | _ -> failwith "dec kind")
+  | "gs" :: ops -> run_gs ops
+  | ["sqrt"; v] ->
+      let x = mkfp (z_of_hex v) in
+      (match sqrt_precomp x with None -> "NIL " ^ fphex x | Some y -> fphex y ^ " " ^ fphex x)
+  | ["gpx"; v; b] ->
+      (match get_point_from_x (mkfp (z_of_hex v)) (b = "1") with
+       | None -> "NIL" | Some (x, y) -> fphex x ^ " " ^ fphex y)
+  | ["commit"; spec] ->
+      hex_of_bytes (bw_bytes (c_commit (Lazy.force crs) (poly_of_spec 256 spec)))
+  | ["crs"; i] -> hex_of_bytes (bw_bytes (List.nth (Lazy.force crs) (int_of_string i)))
+  | ["mprd"; spec; h] ->
+      (match mp_read strict_probe (reader_of_spec spec (bytes_of_hex h)) with
+       | Inl (d, ip) -> "OK " ^ hex_of_bytes (List.concat (mp_write_chunks d ip))
+       | Inr _ -> "ERR")
+  | ["ipard"; spec; h] ->
+      (match ipa_read (reader_of_spec spec (bytes_of_hex h)) with
+       | Inl (ip, _) -> "OK " ^ hex_of_bytes (List.concat (ipa_write_chunks ip))
+       | Inr _ -> "ERR")
+  | ["mpwr"; failat; h] ->
+      (match mp_read true (reader_of_spec "-" (bytes_of_hex h)) with
+       | Inl (d, ip) ->
+           let fa = if failat = "-" then None else Some (nat_of_int (int_of_string failat)) in
+           let (w, e) = write_all (mp_write_chunks d ip) fa [] in
+           (if e then "ERR " else "OK ") ^ hex_of_bytes w
+       | Inr _ -> "BADPROOF")
+  | ["ipawr"; failat; h] ->
+      (match ipa_read (reader_of_spec "-" (bytes_of_hex h)) with
+       | Inl (ip, _) ->
+           let fa = if failat = "-" then None else Some (nat_of_int (int_of_string failat)) in
+           let (w, e) = write_all (ipa_write_chunks ip) fa [] in
+           (if e then "ERR " else "OK ") ^ hex_of_bytes w
+       | Inr _ -> "BADPROOF")
+  (* multiproof creation: mpc <label> <nw> <arrival|-> (<repr> <z> <polyspec>)*  *)
+  | "mpc" :: label :: nw :: arrival :: rest ->
+      let rec triples = function
+        | m :: z :: ps :: tl -> (m, int_of_string z, poly_of_spec 256 ps) :: triples tl
+        | [] -> [] | _ -> failwith "mpc arity" in
+      let ops = triples rest in
+      let crs = Lazy.force crs in
+      let nw = int_of_string nw in
+      let arrival = if arrival = "-" then List.init nw (fun i -> i) else ints_of arrival in
+      let cs = List.map (fun (m, _, f) -> rerepr m (c_commit crs f)) ops in
+      let fs = List.map (fun (_, _, f) -> f) ops in
+      let zs = List.map (fun (_, z, _) -> nat_of_int z) ops in
+      let ys = List.map (fun (_, z, f) -> List.nth f z) ops in
+      let t = t_new (bytes_of_hex label) in
+      (match c_mp_create (nat_of_int nw) (List.map nat_of_int arrival) t crs cs fs zs with
+       | Inr _ -> "ERR"
+       | Inl (t', pr) ->
+           let (_, ch) = c_challenge t' [ZZ.of_int 110] in
+           "OK " ^ proof_bytes pr ^ " " ^ frhex ch
+           ^ " C " ^ String.concat "," (List.map (fun c -> hex_of_bytes (bw_bytes c)) cs)
+           ^ " Y " ^ String.concat "," (List.map frhex ys))
+  (* multiproof verification: mpv <label> <proofhex> (<C point tok> <z> <y hex>)*  *)
+  | "mpv" :: label :: ph :: rest ->
+      let rec triples = function
+        | c :: z :: y :: tl -> (point_of_tok c, int_of_string z, mkfr (z_of_hex y)) :: triples tl
+        | [] -> [] | _ -> failwith "mpv arity" in
+      let ops = triples rest in
+      (match parse_proof ph with
+       | None -> "BADPROOF"
+       | Some pr ->
+           let t = t_new (bytes_of_hex label) in
+           (match c_mp_check t (Lazy.force cfg) pr (List.map (fun (c, _, _) -> c) ops)
+                    (List.map (fun (_, _, y) -> y) ops) (List.map (fun (_, z, _) -> nat_of_int z) ops) with
+            | None -> "ERR"
+            | Some (t', ok) ->
+                let (_, ch) = c_challenge t' [ZZ.of_int 110] in
+                (if ok then "true " else "false ") ^ frhex ch))
+  (* shape cases for the verifier: mpvs <label> <nL> <nR> <nC> <nY> <nZ> : proof with nL/nR points etc. *)
+  | ["mpvs"; label; nl; nr; nc; ny; nz] ->
+      let g = bw_generator in
+      let rep n x = List.init (int_of_string n) (fun _ -> x) in
+      let pr = { mpIPA = { pL = rep nl g; pR = rep nr g; pA = mkfr ZZ.one }; mpD = g } in
+      (match c_mp_check (t_new (bytes_of_hex label)) (Lazy.force cfg) pr (rep nc g) (rep ny (mkfr ZZ.one))
+               (rep nz (nat_of_int 3)) with
+       | None -> "ERR" | Some (_, ok) -> if ok then "true" else "false")
+  (* IPA: ipac <label> <zhex> <polyspec> ; ipav <label> <proofhex544> <C tok> <zhex> <yhex> *)
+  | ["ipac"; label; z; ps] ->
+      let a = poly_of_spec 256 ps in
+      let crs = Lazy.force crs in
+      let c = c_commit crs a in
+      let zf = mkfr (z_of_hex z) in
+      (match c_ipa_create (t_new (bytes_of_hex label)) (Lazy.force cfg) c a zf with
+       | None -> "ERR"
+       | Some (t', pr) ->
+           let (_, ch) = c_challenge t' [ZZ.of_int 110] in
+           let y = c_inner a (c_compute_b crs zf) in
+           "OK " ^ ipa_proof_bytes pr ^ " " ^ frhex ch ^ " C " ^ hex_of_bytes (bw_bytes c) ^ " Y " ^ frhex y)
+  | ["ipav"; label; ph; c; z; y] ->
+      (match ipa_read (reader_of_spec "-" (bytes_of_hex ph)) with
+       | Inr _ -> "BADPROOF"
+       | Inl (ip, _) ->
+           let pr = { pL = ip.ibL; pR = ip.ibR; pA = ip.ibA } in
+           (match c_ipa_check (t_new (bytes_of_hex label)) (Lazy.force cfg) (point_of_tok c) pr
+                    (mkfr (z_of_hex z)) (mkfr (z_of_hex y)) with
+            | None -> "ERR"
+            | Some (t', ok) ->
+                let (_, ch) = c_challenge t' [ZZ.of_int 110] in
+                (if ok then "true " else "false ") ^ frhex ch))
+  | ["dod"; k; ps] ->
+      let f = poly_of_spec 256 ps in
+      String.concat "," (List.map frhex (c_divide_on_domain (nat_of_int (int_of_string k)) f))
+  | ["bary"; z; ps] ->
+      let f = poly_of_spec 256 ps in
+      frhex (c_inner f (c_bary_coeffs (mkfr (z_of_hex z))))
+  | ["baryc"; z] -> String.concat "," (List.map frhex (c_bary_coeffs (mkfr (z_of_hex z))))
+  | ["weights"] ->
+      String.concat "," (List.map frhex c_weights.w_bary) ^ " " ^ String.concat "," (List.map frhex c_weights.w_invdom)
   | op :: _ -> "ERR unknown op " ^ op
   | [] -> ""
 
@@ -23,7 +369,7 @@ let () =
       let toks = split_ws line in
       if toks <> [] then begin
         let out = try handle toks with e -> "EXC " ^ Printexc.to_string e in
-        print_string out; print_char '\n'
+        print_string out; print_char '\n'; flush stdout
       end
     done
   with End_of_file -> ()
